@@ -16,6 +16,8 @@ import (
 	"github.com/openkruise/rollouts/pkg/util"
 	"github.com/openkruise/rollouts/pkg/verifrt"
 	"github.com/openkruise/rollouts/pkg/verifrt/symclient"
+	apps "k8s.io/api/apps/v1"
+	corev1 "k8s.io/api/core/v1"
 	metav1 "k8s.io/apimachinery/pkg/apis/meta/v1"
 	"k8s.io/apimachinery/pkg/types"
 	ctrl "sigs.k8s.io/controller-runtime"
@@ -259,4 +261,45 @@ func VerifC05_CanaryDisableDuringAnotherCleanupViaReconcile() {
 }
 func VerifC05_BlueGreenDisableDuringAnotherCleanupViaReconcile() {
 	c05ExitViaReconcile(true, true, "C05.bluegreen.reasonChange.reconcile.disable")
+}
+
+// VerifC05_StableServiceUnpinnedWhenTheWorkloadIsGone: a rollout can be deleted after (or together with) its workload.
+// The stable Service it pinned to a revision is still there, and un-pinning it is part of the clean-up whether or not
+// the workload can still be read — a Service left selecting a revision hash selects nothing once the application is
+// deployed again.  The real traffic-routing manager is driven with the context the terminating rollout builds.
+func VerifC05_StableServiceUnpinnedWhenTheWorkloadIsGone() {
+	vSimple = true
+	r := vCanaryRollout(1, 1)
+	trs := []v1beta1.TrafficRoutingRef{{Service: "svc", Ingress: &v1beta1.IngressTrafficRouting{Name: "ing"}, GracePeriodSeconds: 0}}
+	r.Spec.Strategy.Canary.TrafficRoutings = trs
+	// the key the rollout pinned the Service with depends on the workload kind
+	key := apps.DefaultDeploymentUniqueLabelKey
+	if verifrt.Bool("workload.statefulSetLike") {
+		key = apps.ControllerRevisionHashLabelKey
+		r.Spec.WorkloadRef = v1beta1.ObjectRef{APIVersion: "apps/v1", Kind: "StatefulSet", Name: "w"}
+	}
+	svc := &corev1.Service{ObjectMeta: metav1.ObjectMeta{Namespace: "ns", Name: "svc", UID: "svc-uid"}}
+	svc.Spec.Selector = map[string]string{"app": "w", key: "stable-rev"}
+	cli := &symclient.Client{Objects: []client.Object{svc}}
+	rec := c10Reconciler(cli)
+	workloadGone := verifrt.Bool("workload.gone")
+	c := &RolloutContext{Rollout: r, NewStatus: r.Status.DeepCopy(), FinalizeReason: v1beta1.FinaliseReasonDelete}
+	if !workloadGone {
+		c.Workload = vWorkload()
+		c.Workload.RevisionLabelKey = key
+	}
+	_, err := rec.trafficRoutingManager.RestoreStableService(newTrafficRoutingContext(c))
+	verifrt.Assert(err == nil, "C05.stableService.restore.noError")
+	unpinned := false
+	for _, w := range cli.Writes("patch", "Service") {
+		if v, has := verifrt.JSONGet(w.Body, "spec", "selector", key); has && v == "null" && w.Obj.GetName() == "svc" {
+			unpinned = true
+		}
+		_, touchesApp := verifrt.JSONGet(w.Body, "spec", "selector", "app")
+		verifrt.Assert(!touchesApp, "C05.stableService.restore.usersSelectorUntouched")
+	}
+	if workloadGone {
+		verifrt.Cover("workload-gone")
+	}
+	verifrt.Assert(unpinned, "C05.stableService.restore.unpinnedWhetherOrNotTheWorkloadStillExists")
 }
